@@ -64,6 +64,7 @@ type Store struct {
 	slots  []slot
 	Calls  []Call
 	Adds   []cid.Cid // order of first-time block writes
+	Removed []cid.Cid // blocks deleted through Dag().Remove
 	Faults map[string]Fault
 	Subst  map[string][]byte // replacement bytes served for a CID (malformed-block placement)
 	// FailAddAt, when >0, makes the k-th (1-based) Add call fail with ErrCrash and every later one too.
@@ -270,8 +271,42 @@ func (d dagSvc) GetMany(ctx context.Context, cs []cid.Cid) <-chan *format.NodeOp
 	close(out)
 	return out
 }
-func (d dagSvc) Remove(ctx context.Context, c cid.Cid) error        { return nil }
-func (d dagSvc) RemoveMany(ctx context.Context, cs []cid.Cid) error { return nil }
+// Remove really deletes the block (a store is not grow-only just because the library never used to delete).
+//
+//go:norace
+func (d dagSvc) Remove(ctx context.Context, c cid.Cid) error {
+	s := d.s
+	if s.Hooks != nil {
+		s.Hooks.Access("blk:"+c.KeyString(), true)
+	}
+	k := c.KeyString()
+	for i := range s.slots {
+		if s.slots[i].key == k {
+			s.slots = append(s.slots[:i:i], s.slots[i+1:]...)
+			s.note(Call{Op: "remove", Cid: c, OK: true})
+			s.Removed = append(s.Removed, c)
+			return nil
+		}
+	}
+	s.note(Call{Op: "remove", Cid: c, OK: false})
+	return nil
+}
+
+func (d dagSvc) RemoveMany(ctx context.Context, cs []cid.Cid) error {
+	for _, c := range cs {
+		d.Remove(ctx, c)
+	}
+	return nil
+}
+
+// Present returns the CIDs of the blocks currently stored.
+func (s *Store) Present() []cid.Cid {
+	var r []cid.Cid
+	for i := range s.slots {
+		r = append(r, s.slots[i].c)
+	}
+	return r
+}
 
 // Gets returns the CIDs requested with Get, in order.
 func (s *Store) Gets() []cid.Cid {
